@@ -173,6 +173,13 @@ func taScenarios(thorough bool) []*scenario {
 	// a kernel-isolated CPU used as THE reserved CPU (accepted by design) while isolated CPUs are handed out exclusively
 	add("ta/iso-reserved/KS-G1-G1-B500", machine16iso(), []cfgSpec{taCfg("rsv-iso3", taReserved("cpuset:3"), taPreferIsolated(true))},
 		append([]podSpec{ks}, pods(tG1, tG1, tB500)...), menu{stop: true, remove: true}, nil)
+	// the reservation is a QUANTITY and an accepted update moves the available set away from the CPU that was picked for it
+	add("ta/reconf-moves-reserved-quantity/KS-B500-G1", machine16(),
+		[]cfgSpec{taCfg("rsv750m"), taCfg("avail-8-15", taAvailable("cpuset:8-15")), taCfg("avail-4-11", taAvailable("cpuset:4-11"))},
+		append([]podSpec{ks}, pods(tB500, tG1)...), menu{stop: true, reconf: []int{0, 1, 2}}, nil)
+	// a container that keeps its own CPUs (cpu.preserve) but has a CPU request: it is booked in the root pool and released again
+	add("ta/preserve-with-request/G2pres-B500-B1500", machine16(), std,
+		[]podSpec{pod1("p", "default", "Guaranteed", tG2pin, map[string]string{annPreserveCPU: "true"}), pods(tB500)[0], pod1("q", "default", "Burstable", tB1500, nil)}, menu{stop: true, remove: true}, nil)
 	// accepted reconfigurations that take away the very CPUs exclusive grants sit on (available set shrunk to either half,
 	// reserved set moved onto either half): the grants cannot be reinstated verbatim and the policy re-allocates everything
 	add("ta/reconf-takes-granted-cpus/G2-B500-KS", machine16(),
@@ -191,6 +198,14 @@ func taScenarios(thorough bool) []*scenario {
 	add("ta/class-annotated/G2-B500-BE", machine16(), std,
 		[]podSpec{pod1("a", "default", "Guaranteed", tG2, map[string]string{"blockioclass." + annNS + "/container.c": "slow"}),
 			pod1("b", "default", "Burstable", tB500, map[string]string{"rdtclass." + annNS + "/pod": "gold"}), pods(tBE)[0]}, menu{start: true, stop: true}, nil)
+	// containers that are given devices with NUMA locality: topology hints steer the pool choice
+	// (coverage.sh: none of the hint scoring ever ran)
+	m16dev := machine16()
+	m16dev.Name += "+devices"
+	m16dev.Devices = []sysgen.Device{{Major: 240, Minor: 0, Node: 3, CPUs: "6-7,14-15"}, {Major: 240, Minor: 1, Node: 0, CPUs: "0-1,8-9"}}
+	g1dev3 := &tmpl{name: "G1dev3", cpuReq: 1000, cpuLim: 1000, memLim: 100 * miB, dev: [2]int64{240, 0}}
+	b5dev0 := &tmpl{name: "B500dev0", cpuReq: 500, cpuLim: 1000, memLim: 200 * miB, dev: [2]int64{240, 1}}
+	add("ta/device-hints/G1(dev@3)-B500(dev@0)-G2-B500", m16dev, std, pods(g1dev3, b5dev0, tG2, tB500), menu{stop: true, remove: true}, nil)
 	// explicit affinity and anti-affinity between containers: pool choice is driven by where other containers sit
 	// (coverage.sh showed the affinity part of the pool scoring was never executed)
 	affTo0 := "c:\n- scope:\n    key: namespace\n    operator: In\n    values: [ default ]\n  match:\n    key: pod/name\n    operator: In\n    values: [ pod0 ]\n  weight: 10\n"
@@ -376,6 +391,22 @@ func blScenarios(thorough bool) []*scenario {
 	}
 	add("bl/allocator-options", machine16iso(), []cfgSpec{blCfg("opts", opts, func(c *cfgapi.BalloonsPolicy) { c.Spec.Config.AllocatorTopologyBalancing = true })},
 		[]podSpec{nsPod("a", "bal", tG2, nil), nsPod("b", "bal", tG1, nil), nsPod("c", "spread", tG3, nil), nsPod("d", "iso", tG1, nil)}, lm)
+	// 4f. containers with devices that have NUMA locality: the CPU tree allocator follows their topology hints
+	b16dev := machine16()
+	b16dev.Name += "+devices"
+	b16dev.Devices = []sysgen.Device{{Major: 240, Minor: 0, Node: 3, CPUs: "6-7,14-15"}, {Major: 240, Minor: 1, Node: 0, CPUs: "0-1,8-9"}}
+	devBl := []*blcfg.BalloonDef{{Name: "dev", Namespaces: []string{"dev"}, MinCpus: 1, MaxCpus: 4, PreferNewBalloons: true, ShareIdleCpusInSame: blcfg.CPUTopologyLevelNuma}}
+	add("bl/device-hints", b16dev, []cfgSpec{blCfg("dev", devBl)},
+		[]podSpec{nsPod("a", "dev", &tmpl{name: "G1dev3", cpuReq: 1000, cpuLim: 1000, memLim: 100 * miB, dev: [2]int64{240, 0}}, nil),
+			nsPod("b", "dev", &tmpl{name: "G2dev0", cpuReq: 2000, cpuLim: 2000, memLim: 100 * miB, dev: [2]int64{240, 1}}, nil), nsPod("c", "dev", tG1, nil)}, lm)
+	// 4g. requests a brand-new balloon can never hold: bigger than the type's maxCPUs, or bigger than what is idle
+	tG6 := &tmpl{name: "G6", cpuReq: 6000, cpuLim: 6000, memLim: 100 * miB}
+	capped := []*blcfg.BalloonDef{
+		{Name: "capped", Namespaces: []string{"capped"}, MinCpus: 2, MaxCpus: 4},
+		{Name: "roomy", Namespaces: []string{"roomy"}, MinCpus: 2, MaxCpus: 6, PreferNewBalloons: true},
+	}
+	add("bl/failed-new-balloon", machine16(), []cfgSpec{blCfg("capped", capped)},
+		[]podSpec{nsPod("a", "capped", tG2, nil), nsPod("b", "capped", tG6, nil), nsPod("c", "roomy", tG1, nil), nsPod("d", "roomy", tG6, nil)}, menu{stop: true, remove: true})
 	// 5. several balloons with hidden hyperthreads that share idle CPUs: one event re-pins more than one balloon
 	noht := []*blcfg.BalloonDef{
 		{Name: "noht", Namespaces: []string{"noht"}, MinCpus: 1, MaxCpus: 4, PreferNewBalloons: true, HideHyperthreads: bptr(true), ShareIdleCpusInSame: blcfg.CPUTopologyLevelPackage},
@@ -456,6 +487,7 @@ func c04Scenarios(thorough bool) []*scenario {
 	// a configuration update (even an identical one) re-registers every allocation with the memory allocator: later
 	// admissions must still see what the older containers hold
 	add("ta/mem/2dram+reconf/M3G-M3G-M2G", polTA, machine8(), std, pods(tM3G, tM3G, tM2G), menu{stop: true, reconf: []int{0}})
+	add("ta/mem/pin-toggle/M3G-M3G-M2G", polTA, machine8(), []cfgSpec{taCfg("pin"), taCfg("pin-memory-off", taPin(true, false))}, pods(tM3G, tM3G, tM2G), menu{stop: true, reconf: []int{0, 1}})
 	add("bl/mem/2dram+reconf/M3G-M3G-M2G", polBalloons, machine8(), []cfgSpec{blCfg("mem", []*blcfg.BalloonDef{{Name: "mem", Namespaces: []string{"mem"}, MinCpus: 1, MaxCpus: 2, PreferNewBalloons: true}})},
 		[]podSpec{nsPod("a", "mem", tM3G, nil), nsPod("b", "mem", tM3G, nil), nsPod("c", "mem", tM2G, nil)}, menu{stop: true, reconf: []int{0}})
 	add("ta/mem/4dram/M3G-M3G-M3G-BM6G", polTA, machine16(), std, pods(tM3G, tM3G, tM3G, tBM6G), lm)
@@ -518,12 +550,16 @@ func c12Scenarios(thorough bool) []*scenario {
 	add("ta/optout/cpu-pod-level", polTA, machine16(), []cfgSpec{taCfg("rsv750m"), taCfg("rsv2", taReserved("cpuset:0,8"))},
 		[]podSpec{pod1("p", "default", "Guaranteed", tG2pin, map[string]string{annPreserveCPU + "/pod": "true"}), pod1("a", "default", "Guaranteed", tG2, nil), pod1("b", "default", "Burstable", tB500, nil)},
 		menu{stop: true, remove: true, sync: true, reconf: []int{0, 1}}, nil)
+	// opt-outs must survive a plugin restart (the grants come back from the cache)
+	add("ta/optout/restart/cpu+mem", polTA, machine8(), std,
+		[]podSpec{pod1("p", "default", "Guaranteed", g2Pin8, map[string]string{annPreserveCPU: "true"}), pod1("q", "default", "Guaranteed", m3Pin8, map[string]string{annPreserveMem + "/pod": "true"}), pod1("a", "default", "Burstable", tB500, nil)},
+		menu{stop: true, restart: true}, nil)
 	add("ta/optout/cpu-container-level+update", polTA, machine16(), std,
 		[]podSpec{pod1("p", "default", "Burstable", tB5pin, map[string]string{annPreserveCPU + "/container.c": "true"}), pod1("a", "default", "Guaranteed", tG2, nil), pod1("b", "default", "BestEffort", tBE, nil)},
 		full, ups)
 	add("ta/optout/mem-bare+widening", polTA, machine8(), std,
 		[]podSpec{pod1("p", "default", "Guaranteed", m3Pin8, map[string]string{annPreserveMem: "true"}), pod1("a", "default", "Guaranteed", tM3G, nil), pod1("b", "default", "Guaranteed", tM3G, nil)},
-		menu{stop: true, remove: true, sync: true}, nil)
+		menu{stop: true, remove: true, sync: true, restart: true}, nil)
 	bm3Pin8 := &tmpl{name: "BM3Gpin8", cpuReq: 300, cpuLim: 1000, memLim: 3 * giB, initCpus: "0,7", initMems: "0", oomAdj: 955} // oom_score_adj 955 of 64 GiB: a ~2.9 GiB memory request
 	add("ta/optout/mem-burstable+widening", polTA, machine8(), std,
 		[]podSpec{pod1("p", "default", "Burstable", bm3Pin8, map[string]string{annPreserveMem + "/pod": "true"}), pod1("a", "default", "Guaranteed", tM3G, nil), pod1("b", "default", "Guaranteed", tM2G, nil)},
@@ -534,6 +570,11 @@ func c12Scenarios(thorough bool) []*scenario {
 	add("ta/optout/pinCPU-off", polTA, machine8(), []cfgSpec{taCfg("nocpu", taPin(false, true)), taCfg("pin", taPin(true, true))},
 		[]podSpec{pod1("p", "default", "Guaranteed", g2Pin8, nil), pod1("a", "default", "Guaranteed", tM3G, nil), pod1("b", "default", "Burstable", tB500, nil)},
 		menu{stop: true, remove: true, reconf: []int{0}}, nil)
+	// pinning is off; an update that would switch it on is refused (reserved CPUs outside the available set): still off
+	add("ta/optout/pin-off+refused-pin-on", polTA, machine8(),
+		[]cfgSpec{taCfg("nopin", taPin(false, false)), taCfg("pin-on-but-invalid", taPin(true, true), taAvailable("cpuset:4-7"), taReserved("cpuset:0"))},
+		[]podSpec{pod1("p", "default", "Guaranteed", g2Pin8, nil), pod1("a", "default", "Guaranteed", tG1, nil), pod1("b", "default", "Burstable", tB500, nil)},
+		menu{stop: true, reconf: []int{0, 1}}, nil)
 	add("ta/optout/pinMemory-off", polTA, machine8(), []cfgSpec{taCfg("nomem", taPin(true, false))},
 		[]podSpec{pod1("p", "default", "Guaranteed", m3Pin8, nil), pod1("a", "default", "Guaranteed", tM3G, nil), pod1("b", "default", "Guaranteed", tM3G, nil)},
 		menu{stop: true, remove: true, sync: true, reconf: []int{0}}, nil)
@@ -604,9 +645,15 @@ func c13Scenarios(thorough bool) []*scenario {
 		taCfg("reserved-outside-available", taAvailable("cpuset:0-11"), taReserved("cpuset:15")),
 		taCfg("no-reservation", taNoReserved()),
 		taCfg("unsatisfiable-capacity", taAvailable("cpuset:0-1")),
+		taCfg("available-moved-reserved-quantity", taAvailable("cpuset:4-15")),
 	}
 	add("ta/reconf/G2-B500-KS", polTA, machine16(), taCfgs, append(pods(tG2, tB500), ks), menu{stop: true})
 	add("ta/reconf/G4-G1500-BE", polTA, machine16(), taCfgs, pods(tG4, tG1500, tBE), menu{stop: true})
+	// the reservation is a quantity; accepted updates move the available set off the CPU that was picked for it, with a
+	// kube-system container that has no CPU request of its own (it lives on the reserved CPUs alone)
+	add("ta/reconf/reserved-quantity/KSBE-B500-G1", polTA, machine16(),
+		[]cfgSpec{taCfg("base"), taCfg("available-4-15", taAvailable("cpuset:4-15")), taCfg("available-8-15+rsv2", taAvailable("cpuset:8-15"), taReserved("2"))},
+		[]podSpec{pod1("ks", "kube-system", "BestEffort", tBE, nil), pods(tB500)[0], pod1("g", "default", "Guaranteed", tG1, nil)}, menu{stop: true})
 	taCfgs2 := []cfgSpec{
 		taCfg("base"),
 		taCfg("prefer-shared", taPreferShared(true)),
@@ -712,6 +759,12 @@ func c11Scenarios(thorough bool) []*scenario {
 	blp := []podSpec{nsPod("a", "dyn1", tG2, nil), nsPod("b", "dyn1", tB500, nil), nsPod("c", "share", tM3G, nil)}
 	// a same-named container created while the old one is still alive (pod re-created under the same name):
 	// the plugin releases the old instance, the runtime still reports it running after the restart
+	add("ta/restart/with-reserved/KS-B500-G2", polTA, machine16(), std, append([]podSpec{pod1("ks", "kube-system", "BestEffort", tBE, nil)}, pods(tB500, tG2)...), menu{start: true, stop: true, restart: true})
+	// the order in which Synchronize re-admits containers is the policy's own: a shared Guaranteed container with much memory,
+	// an exclusive one with little, a reserved one without requests
+	tG500M2G := &tmpl{name: "G500M2G", cpuReq: 500, cpuLim: 500, memLim: 2 * giB}
+	add("ta/restart/sync-order/KSBE-G500M2G-G2", polTA, machine8(), std,
+		[]podSpec{pod1("ks", "kube-system", "BestEffort", tBE, nil), pod1("web", "default", "Guaranteed", tG500M2G, nil), pod1("db", "default", "Guaranteed", tG2, nil)}, menu{start: true, stop: true, restart: true})
 	re := add("ta/restart/recreate-live/G2-B500", polTA, machine16(), std, pods(tG2, tB500), menu{start: true, stop: true, restart: true, recreateLive: true})
 	re.maxInc = 2
 	rb := add("bl/restart/recreate-live", polBalloons, machine8(), []cfgSpec{blCfg("dyn", defs)}, blp[:2], menu{start: true, stop: true, restart: true, recreateLive: true})
@@ -747,6 +800,18 @@ func c14Scenarios(thorough bool) []*scenario {
 	s4 := &scenario{name: "bl/c14/two-container-pod", policy: polBalloons, machine: machine8(), cfgs: []cfgSpec{blCfg("dyn", defs)},
 		pods: []podSpec{two, pods(tG1)[0]}, menu: mn, updates: ups, depth: depth, maxInc: 1}
 	out = append(out, s1, s2, s3, s4)
+	// containers whose creation is refused (too large for the machine / a balloon type that does not exist) and that carry
+	// class annotations (the cache prepares their first adjustment while inserting them): events naming them afterwards,
+	// including an update that repeats their resources
+	ups2 := append([]updSpec{{label: "same", same: true}, {label: "absent", absent: true}}, ups...)
+	cls := map[string]string{"rdtclass.resource-policy.nri.io": "gold", "blockioclass.resource-policy.nri.io/container.c": "slow"}
+	huge := &tmpl{name: "G64", cpuReq: 64000, cpuLim: 64000, memLim: 100 * miB}
+	s5 := &scenario{name: "ta/c14/refused-with-classes", policy: polTA, machine: machine8(), cfgs: []cfgSpec{taCfg("rsv750m")},
+		pods: []podSpec{pod1("big", "default", "Guaranteed", huge, cls), pods(tB500)[0]}, menu: mn, updates: ups2, depth: depth, maxInc: 1}
+	cls2 := map[string]string{"rdtclass.resource-policy.nri.io": "gold", annBalloon: "no-such-type"}
+	s6 := &scenario{name: "bl/c14/refused-with-classes", policy: polBalloons, machine: machine8(), cfgs: []cfgSpec{blCfg("dyn", defs)},
+		pods: []podSpec{pod1("odd", "default", "Burstable", tB500, cls2), pods(tB500)[0]}, menu: mn, updates: ups2, depth: depth, maxInc: 1}
+	out = append(out, s5, s6)
 	for _, s := range out {
 		s.prefix = runAll(len(s.pods))
 	}
@@ -769,7 +834,7 @@ func c14InputCases(thorough bool) []*scenario {
 		"c:\n  - match:\n      key: name\n      operator: In\n      values: null\n    weight: 99999999999", "[1,2", "c: {a: b}", "{c: [{match: {key: 'pod/labels/x', operator: Exists}}]}",
 		"c:\n  - scope:\n      key: tags/x\n      operator: Matches\n      values: [\"[\"]\n    match:\n      key: :,-::ns:\n      operator: Equals\n      values: [a]", big}
 	var out []*scenario
-	ups := []updSpec{{label: "to-1500m", cpuReq: 1500, cpuLim: 1500, memLim: 100 * miB}}
+	ups := []updSpec{{label: "to-1500m", cpuReq: 1500, cpuLim: 1500, memLim: 100 * miB}, {label: "same", same: true}, {label: "absent", absent: true}}
 	defs := []*blcfg.BalloonDef{{Name: "dyn", Namespaces: []string{"default"}, MinCpus: 1, MaxCpus: 4, ShareIdleCpusInSame: blcfg.CPUTopologyLevelSystem}}
 	mk := func(pol, name string, ann map[string]string, t *tmpl, qos string) {
 		s := &scenario{name: name, policy: pol, machine: machine8(), pods: []podSpec{pod1("p", "default", qos, t, ann)}, updates: ups, maxInc: 1}
@@ -799,6 +864,8 @@ func c14InputCases(thorough bool) []*scenario {
 				t.shape = shape
 				t.name = base.name + "/" + shape
 				mk(pol, fmt.Sprintf("%s/shape/%s", pol, t.name), nil, &t, qosOf(base))
+				// the same shape on a container the policy leaves alone (nothing is ever filled in for it)
+				mk(pol, fmt.Sprintf("%s/shape/%s+preserve", pol, t.name), map[string]string{"cpu.preserve." + ns: "true", "memory.preserve." + ns: "true"}, &t, qosOf(base))
 			}
 		}
 	}
